@@ -139,5 +139,41 @@ def run(E: Engine, rep: Report, tier: str) -> dict:
         a = [arg(c, i, n_) for i, n_ in ((1, "amp_on"), (2, "detuning_on"), (3, "detuning_off"))]
         ok = all(x is not None for x in a) and mentions(a[0], "amp_on") and not mentions(a[0], "detuning_on") and mentions(a[1], "detuning_on") and not mentions(a[1], "amp_on") and any(t[0] == "call" and t[1] == ("attr", ("name", "self"), "_process_eom_parameters") for t in sym.subterms(a[2]))
         rep.check(ok, "FLOW", f"Sequence.{nm}|passes-setpoint-to-scheduler", "(amp_on, detuning_on, computed detuning_off) handed to the scheduler in that order", f"{nm} hands {[sh(x, 50) for x in a]} to _Schedule.enable_eom", E.where(m_, c.node))
-    rep.floor("FLOW", 20)
+    # who may build drift parameters: the two methods that open a block (drift counted from the buffer start) and the
+    # one helper that looks up the last EOM pulse; every correction of an *elapsed* drift goes through that helper
+    ctor_sites = set()
+    for f in E.P.all_functions():
+        if f.kind == "overload" or not f.module.name.startswith("pulser.sequence"):
+            continue
+        if any(isinstance(n, ast.Call) and (dotted(n.func) or "") == "_PhaseDriftParams" for n in own_nodes(f)):
+            ctor_sites.add(f.short)
+    allowed_ctor = {"Sequence.enable_eom_mode", "Sequence.modify_eom_setpoint", "Sequence._get_last_eom_pulse_phase_drift"}
+    rep.check(ctor_sites <= allowed_ctor and "Sequence._get_last_eom_pulse_phase_drift" in ctor_sites, "OWN", "_PhaseDriftParams|who-may-construct", f"built only in {sorted(ctor_sites)}", f"_PhaseDriftParams is also built in {sorted(ctor_sites - allowed_ctor)}: the drift reference of an elapsed interval must come from _get_last_eom_pulse_phase_drift (drift since the last EOM pulse, not since the start of the block)", E.where(aep))
+    dem = E.method(SEQ, "disable_eom_mode")
+    Sdm = S(E, dem, inline=False)
+    psh = [l for l in Sdm.log if l.fn == dem.short and l.kind == "call" and l.target == ("attr", ("name", "self"), "_phase_shift")]
+    ok = bool(psh)
+    for l in psh:
+        m = is_(arg(l, 0), "-float(self._get_last_eom_pulse_phase_drift(channel).calc_phase_drift(Q_tf))")
+        ok = ok and m is not None and is_(m["Q_tf"], "self._schedule[channel].eom_blocks[-1].tf") is not None
+    rep.check(ok, "FLOW", "disable_eom_mode|drift-since-last-eom-pulse-until-block-end", "phase shift = -drift(last EOM pulse -> end of the block)", "disable_eom_mode no longer corrects the drift accumulated from the last EOM pulse (via _get_last_eom_pulse_phase_drift) up to the end of the block", E.where(dem))
+    # modulation: every EOM block gets its mask AND its fall-time extension (same loop, same block end)
+    mod = E.method("pulser.sampler.samples.ChannelSamples", "modulate")
+    Sm_ = S(E, mod, inline=False)
+    blocks = sym.Pattern("self.eom_blocks").term
+    sts = [l for l in Sm_.logged("store") if l.fn == mod.short and l.target is not None and l.target[0] == "idx" and l.target[2][0] == "slice" and l.value == ("const", True) and l.loops and l.loops[-1] == blocks]
+    inside = {}
+    for l in sts:
+        inside.setdefault(l.target[1], []).append(l.target[2])
+    ok = len(inside) == 2
+    if ok:
+        (o1, s1), (o2, s2) = sorted(inside.items(), key=lambda kv: sym.tkey(kv[1][0]))
+        pair = None
+        for a, b in ((s1[0], s2[0]), (s2[0], s1[0])):
+            m = is_(a, "slice(Q_b.ti, Q_end)")
+            if m is not None and is_(b, "slice(Q_end, Q_end + Q_fall)", {"Q_end": m["Q_end"]}) is not None:
+                pair = m
+        ok = pair is not None and elem_of(pair["Q_b"], blocks)
+    rep.check(ok, "FLOW", "modulate|every-block-mask-extended-by-fall-time", "for each EOM block: mask[ti:end] and mask_ext[end:end+fall] are set in the same loop", "ChannelSamples.modulate no longer extends the EOM mask of *every* block by the EOM fall time (the extension must be written inside the loop over eom_blocks, from that block's end): the tail of every non-final block is cut off", E.where(mod))
+    rep.floor("FLOW", 22)
     return {}
